@@ -389,11 +389,12 @@ class Verdict(object):
 
 
 def write_evidence(prop, ev):
-    os.makedirs(os.path.join(VERIF, "evidence"), exist_ok=True)
+    edir = os.environ.get("VERIF_EVIDENCE_DIR") or os.path.join(VERIF, "evidence")   # (mutant runs write elsewhere)
+    os.makedirs(edir, exist_ok=True)
     ev.setdefault("property_id", prop)
     ev.setdefault("seed", seed())
     ev.setdefault("level", "model_checking")
-    path = os.path.join(VERIF, "evidence", prop + ".json")
+    path = os.path.join(edir, prop + ".json")
     tmp = path + ".tmp%d" % os.getpid()
     with open(tmp, "w") as f:
         json.dump(ev, f, indent=1, sort_keys=True, default=str)
